@@ -127,8 +127,11 @@ def element_jac(h, form="db", interp="Quaternion", nel=1, p=1, k=0, seed=0):
         la = h.vec("la", rod.nla_c_element)
         h.eq("c_el_qe", h.D(lambda q_: rod.c_el(q_, la, el), (qe,), (dqe,)), rod.c_el_qe(qe, la, el) @ dqe)
         h.eq("Wla_c_el_qe", h.D(lambda q_: rod.W_c_el(q_, el) @ la, (qe,), (dqe,)), rod.Wla_c_el_qe(qe, la, el) @ dqe)
-        dla = h.vec("dla", rod.nla_c_element)
-        h.eq("c_la_c_el", h.D(lambda la_: rod.c_el(qe, la_, el), (la,), (dla,)), rod.c_la_c_el(el) @ dla)
+        # (per basis direction with an absolute tolerance: both sides combine the repo's float quadrature data, in different association orders)
+        Cel = np.asarray(rod.c_la_c_el(el))
+        for jj in range(rod.nla_c_element):
+            ej = np.eye(rod.nla_c_element)[jj]
+            h.eq("c_la_c_el", h.D(lambda la_: rod.c_el(qe, la_, el), (la,), (ej,)), Cel[:, jj], tol=(1e-12 if h.sym else 1e-6))
     if hasattr(rod, "g_el"):
         lg = h.vec("lg", rod.nla_g_element)
         h.eq("g_q_el", h.D(lambda q_: rod.g_el(q_, el), (qe,), (dqe,)), rod.g_q_el(qe, el) @ dqe)
